@@ -9,10 +9,6 @@ T = 'giscanner.transformer.Transformer.'
 NS = 'giscanner.ast.Namespace.'
 
 # ---- prefix matching: assumed here, see the contract of _split_c_string_for_namespace_matches below -----------
-contract(T + 'split_csymbol', params={'self': 'Transformer', 'symbol': 'str'}, returns='tuple[Namespace,str]', trusted=True,
-         pure_keys=['self', 'symbol'], raises={'ValueError': 'maybe'},
-         ensures={'suffix': 'symbol.endswith(result[1])'},
-         note='best (namespace, stripped name) match; verified through _split_c_string_for_namespace_matches')
 contract(T + 'split_ctype_namespaces', params={'self': 'Transformer', 'ident': 'str'}, returns='list[tuple[Namespace,str]]',
          trusted=True, pure_keys=['self', 'ident'], raises={'ValueError': 'maybe'},
          ensures={'nonempty': 'len(result) >= 1'})
@@ -32,7 +28,7 @@ def visible(ident):
 
 contract(T + '_strip_symbol', params={'self': 'Transformer', 'symbol': 'SourceSymbol'}, returns='str', props=('C04',),
          pure_keys=['self', 'symbol.ident'],
-         requires=['symbol.ident is not None'],
+         requires=['symbol.ident is not None', 'not self._symbol_filter_cmd'],
          raises={'TransformerException': 'True'},
          let={'bare': "symbol.ident[1:] if symbol.ident.startswith('_') else symbol.ident"},
          ensures={
@@ -43,7 +39,8 @@ contract(T + '_strip_symbol', params={'self': 'Transformer', 'symbol': 'SourceSy
 
 contract(T + '_create_function', params={'self': 'Transformer', 'symbol': 'SourceSymbol'}, returns='Function?', props=('C04',),
          requires=['symbol.ident is not None', 'symbol._symbol.base_type is not None',
-                   'symbol._symbol.base_type.base_type is not None'],
+                   'symbol._symbol.base_type.base_type is not None',
+                   'not self._symbol_filter_cmd'],
          modifies=['LOGGER._warning_count', '*.parent'],
          raises={'TransformerException': 'True', 'KeyError': 'True', 'AttributeError': 'True'},
          ensures={
@@ -133,7 +130,7 @@ def sym_prefix(p, is_identifier):
 def prefixes_of(ns, name, is_identifier):
     if is_identifier:
         return ns.identifier_prefixes
-    if name[0].isupper():
+    if name[:1].isupper():
         return ns._ucase_symbol_prefixes
     return ns.symbol_prefixes
 
@@ -175,7 +172,7 @@ ANY_HIT = '(0 <= M and M < len(%s) and 0 <= J and J < len(%s) and matches_prefix
 contract(T + '_split_c_string_for_namespace_matches',
          params={'self': 'Transformer', 'name': 'str', 'is_identifier': 'bool'}, returns='list[tuple[Namespace,str]]',
          ghost={'J': 'int', 'K': 'int', 'M': 'int'}, props=('C04',),
-         requires=['not self._symbol_filter_cmd', 'len(name) > 0'],
+         requires=['not self._symbol_filter_cmd'],
          modifies=[], let={'cur_hit': CUR_HIT, 'any_hit': ANY_HIT}, split_returns=True, index_ghosts=['K'], chunks=8,
          witness=["name == 'g_foo'", 'not is_identifier', 'len(self._iter_namespaces()) == 1',
                   'len(self._namespace.symbol_prefixes) == 1', "self._namespace.symbol_prefixes[0] == 'g'",
@@ -212,3 +209,24 @@ contract(T + '_split_c_string_for_namespace_matches',
              'C04.prefix.nonempty': 'len(result) >= 1',
          },
          note='filter commands (--symbol-filter-cmd) are excluded by precondition; the witness of a match is its index')
+
+
+# ---- the single best match of a symbol: the last element of the matcher's result ----------------------------------------
+def _subst(text):
+    import re
+    return re.sub(r'\bis_identifier\b', 'False', re.sub(r'\bname\b', 'symbol', text))
+
+
+contract(T + 'split_csymbol', params={'self': 'Transformer', 'symbol': 'str'}, returns='tuple[Namespace,str]',
+         pure_keys=['self', 'symbol'], ghost={'J': 'int', 'M': 'int'}, props=('C04',),
+         requires=['not self._symbol_filter_cmd'],
+         let={'cur_hit': _subst(CUR_HIT), 'any_hit': _subst(ANY_HIT)},
+         raises={'ValueError': 'not any_hit'},
+         ghost_args={T + '_split_c_string_for_namespace_matches': [{'K': 'len(result) - 1'}]},
+         ensures={
+             'C04.split.current_namespace_wins': 'implies(cur_hit, result[0] is self._namespace)',
+             'C04.split.stripped_name_is_a_suffix': 'symbol.endswith(result[1])',
+             'C04.split.symbol_prefix_ends_at_underscore': 'implies(any_hit, stripped_ok(result[1], symbol, False))',
+         },
+         note='pure_keys: the result is treated as a function of (self, symbol) in specifications, i.e. the prefix lists '
+              'of the namespaces are taken as fixed during a scan (assumed)')
